@@ -66,6 +66,8 @@ let judges : (string * (sx -> verdict)) list = [
   "C04", judge_C04;
   "C09", judge_C09;
   "C10", judge_C10;
+  "C14", judge_C14;
+  "C15", judge_C15;
 ]
 
 let () =
